@@ -35,5 +35,12 @@ def run(ctx):
             ctx.violation("%s (%s/%s, k=1 after k=2)" % (bad["crash"], be, kind), key="h_boot replay crash A-after-B %s %s" % (be, kind))
         elif bad:
             ctx.violation("blind rotation / bootstrapping at k = 1 after a k = 2 evaluation in the same thread deviates from the model on %s/%s: row %s" % (be, kind, (bad["row"] or "")[:300]), detail=bad, files=[bad["rows_file"]])
+    # the same instance replayed by four threads at once (evaluation temporaries shared between callers show here although every thread owns its data)
+    for be, kind in after_k2[:2] if not thorough else after_k2:
+        bad, rows = rr.replay(ctx, rr.INST_A, "A4", be, kind, ("ext", "rot"), ctx.seed, take=2, threads=4)
+        if bad and "crash" in bad:
+            ctx.violation("%s (%s/%s, four threads)" % (bad["crash"], be, kind), key="h_boot replay crash 4 threads %s %s" % (be, kind))
+        elif bad:
+            ctx.violation("external product / blind rotation evaluated by four threads at once deviates from the model on %s/%s: row %s" % (be, kind, (bad["row"] or "")[:300]), detail=bad, files=[bad["rows_file"]])
     ctx.assume("noiseless TGSW rows with model-chosen masks give exact-up-to-FFT-rounding equalities (256 units of 2^-32); the statistical clause for noisy rows is covered by the gate-output statistics of C02")
     ctx.assume("coefficient-domain and FFT-domain variants, and blind rotation whole vs one key element at a time, are validated against the same model, hence agree")
